@@ -95,16 +95,22 @@ def describe(case: dict) -> Any:
 _SHORT = re.compile(r"^\d{6}$")
 
 
-def predict(sim: core.Sim, files_zdir: str, candidates: list[str], rec: hist.Rec) -> Optional[dict]:
+def predict(sim: core.Sim, files_zdir: str, candidates: list[str], rec: hist.Rec, indexed: dict) -> Optional[dict]:
     """-> {"S": {(page, line): info}, "new": {(page, line)}, "processed": [...]} or None
     when the pre-state is outside the model (duplicate ZIDs on one page)."""
     today = _real_dt.date.fromordinal(sim.day).isoformat()
-    hm = _idx.read_hash_map(sim)
+    # "changed page" = its bytes differ from what they were when an index command last
+    # covered it successfully (tracked by the harness; zorg's own book-keeping file is not
+    # consulted, so its layout is free to change and its corruption cannot blind the model).
+    # zorg may process MORE pages than these (e.g. after an explicit-path run), but
+    # reprocessing an unchanged page stamps nothing.
     processed = []
     for p in candidates:
         full = os.path.join(files_zdir, p)
-        if os.path.exists(full) and hm.get(p) != _idx.sha_file(full):
-            processed.append(p)
+        if os.path.exists(full):
+            with core._real_open(full, "rb") as f:
+                if f.read() != indexed.get(p):
+                    processed.append(p)
     ci = ob.canon_index(sim.db_path)
     assert ci is not None
     by_page = _idx.index_notes_by_page(ci)
@@ -275,6 +281,7 @@ def execute(case: dict, scratch: str) -> dict:
     if oracles.agreement_problems(sim):
         rec.stat("skipped:initial-create-not-in-agreement")
         return rec.result()
+    indexed: dict[str, bytes] = dict(ob.read_files(sim.zdir, (".zo",)))
     for i, st in enumerate(case["steps"]):
         op = st["op"]
         if op == "day":
@@ -306,7 +313,7 @@ def execute(case: dict, scratch: str) -> dict:
                 continue
             real = {"op": "reindex", "paths": paths} if paths else {"op": "reindex"}
             candidates = paths or ob.list_pages(sim.zdir)
-            model = predict(sim, sim.zdir, candidates, rec)
+            model = predict(sim, sim.zdir, candidates, rec, indexed)
             before_files = {k: v.decode("utf-8") for k, v in ob.read_files(sim.zdir, (".zo",)).items()}
             tick_from = None
             if st.get("tick") is not None:
@@ -334,7 +341,8 @@ def execute(case: dict, scratch: str) -> dict:
             if bad:
                 shadow.destroy()
                 continue
-            model = predict(sim, shadow.zdir, ob.list_pages(shadow.zdir), rec)
+            model = predict(sim, shadow.zdir, ob.list_pages(shadow.zdir), rec, indexed)
+            candidates = ob.list_pages(shadow.zdir)
             before_files = {k: v.decode("utf-8") for k, v in ob.read_files(shadow.zdir, (".zo",)).items()}
             shadow.destroy()
             tick_from = None
@@ -345,6 +353,12 @@ def execute(case: dict, scratch: str) -> dict:
             continue
         if o.status != "ok":
             return rec.result(hist.viol("reindex-failed", _idx.exc_cause(o), step=i, op=real, msg=(o.exc or {}).get("msg")))
+        now = ob.read_files(sim.zdir, (".zo",))
+        for p in candidates:
+            if p in now:
+                indexed[p] = now[p]
+        if not real.get("paths"):
+            indexed = dict(now)  # a plain run covers the whole directory (and forgets deleted pages)
         if model is None:
             rec.stat("steps-outside-model:duplicate-zid-on-page")
             continue
